@@ -213,4 +213,26 @@ theorem C12_shown_dominated (l : List (Option Int)) (x : Option Int) (hx : optLe
   cases m <;> cases x <;> simp_all [optLe]
   omega
 
+/-- **a showdown that leaves one player in the hand ends the dealing**: `_end_showdown` then goes on to hand
+    killing (where that player is not flagged: `C12_lone_not_killed`) instead of running out the board for him
+    (the repair 0c01c5a of finding F11) -/
+theorem C12_lone_showdown_stops (m : M) (rest : List Ctl) (hctl : m.ctl = .endShow :: rest)
+    (hclear : (anyB m.st.runoutSelectors || !m.st.showdown.isEmpty) = false) (si : Int)
+    (hsi : m.st.streetIndex = some si) (hlone : m.st.liveCount ≤ 1) :
+    (step cfg env m).ctl = .beginKill :: rest ∧ (step cfg env m).st.liveCount = m.st.liveCount := by
+  unfold step; rw [hctl]; simp only [hclear, hsi]
+  simp only [Bool.false_eq_true, if_false]
+  have hne : ∀ (s' : State), s'.statuses = m.st.statuses → ¬ (s'.allIn && !s'.streetIsLast cfg && decide (s'.liveCount > 1)) = true := by
+    intro s' hs'
+    have : s'.liveCount = m.st.liveCount := by unfold State.liveCount; rw [hs']
+    have h1 : ¬ s'.liveCount > 1 := by omega
+    simp [h1]
+  constructor
+  · repeat' split
+    all_goals first
+      | rfl
+      | (rename_i hc; exact absurd hc (hne _ rfl))
+  · repeat' split
+    all_goals rfl
+
 end PK
